@@ -30,6 +30,24 @@ type Program struct {
 	roots   map[string]bool
 }
 
+// ScratchModfile copies dir/go.mod and dir/go.sum into a fresh temporary directory and returns the
+// path of the copied go.mod ("" if dir has no go.mod). The caller removes the directory.
+func ScratchModfile(dir string) string {
+	mod, err := os.ReadFile(filepath.Join(dir, "go.mod"))
+	if err != nil {
+		return ""
+	}
+	td, err := os.MkdirTemp("", "symgo-mod-")
+	if err != nil {
+		return ""
+	}
+	os.WriteFile(filepath.Join(td, "go.mod"), mod, 0o644)
+	if sum, err := os.ReadFile(filepath.Join(dir, "go.sum")); err == nil {
+		os.WriteFile(filepath.Join(td, "go.sum"), sum, 0o644)
+	}
+	return filepath.Join(td, "go.mod")
+}
+
 // Load type-checks pkgPath (in dir) together with the extra source roots and builds SSA.
 func Load(dir string, pkgPath string, roots []string, overlay map[string][]byte, tags string) (*Program, error) {
 	t0 := time.Now()
@@ -42,6 +60,12 @@ func Load(dir string, pkgPath string, roots []string, overlay map[string][]byte,
 	cfg.Mode = packages.LoadSyntax
 	if tags != "" {
 		cfg.BuildFlags = []string{"-tags=" + tags}
+	}
+	// never let the go command "fix" the target's go.mod/go.sum (-mod=mod rewrites e.g. an
+	// "// indirect" comment when a harness imports that module directly): work on a scratch copy
+	if mf := ScratchModfile(dir); mf != "" {
+		defer os.RemoveAll(filepath.Dir(mf))
+		cfg.BuildFlags = append(cfg.BuildFlags, "-modfile="+mf)
 	}
 	patterns := append([]string{pkgPath}, roots...)
 	var initial []*packages.Package
